@@ -323,7 +323,7 @@ fn c_partial_date(p: &(Option<i32>, Option<u8>, &str, Option<u8>, &str, Option<i
     r.calendar = cal.clone();
     Ok(r)
 }
-const PARTIAL_DATES: [(Option<i32>, Option<u8>, &str, Option<u8>, &str, Option<i32>); 7] = [
+const PARTIAL_DATES: [(Option<i32>, Option<u8>, &str, Option<u8>, &str, Option<i32>); 12] = [
     (Some(2022), Some(5), "", Some(6), "", None),
     (None, None, "M07", None, "", None),
     (Some(2023), None, "", None, "", None),
@@ -331,6 +331,12 @@ const PARTIAL_DATES: [(Option<i32>, Option<u8>, &str, Option<u8>, &str, Option<i
     (None, Some(3), "M04", None, "", None), // contradiction
     (None, None, "", None, "", None),       // empty
     (None, None, "XYZ", Some(1), "", None), // malformed month code
+    // era records: short codes, 16-byte codes, the one 19-byte alias, an unknown era, an over-long one
+    (None, Some(3), "", Some(7), "ce", Some(2020)),
+    (None, Some(3), "", Some(7), "ethiopic-inverse", Some(12)),
+    (None, Some(3), "", Some(7), "ethiopic-amete-alem", Some(5000)),
+    (None, None, "M03", Some(7), "no-such-era", Some(5)),
+    (None, Some(3), "", Some(7), "an-era-name-of-more-than-19-bytes", Some(5)),
 ];
 
 fn f_partial_time(p: &[Option<u16>; 6]) -> ftime::PartialTime {
